@@ -316,18 +316,26 @@ Record hist_case := {
   hc_final : world           (* implementation: every directory with its files at the end *)
 }.
 
-Definition rec_eqb (a b : runrec) : bool :=
+(* A parallel observation that fails: which of the OTHER runs' files got written before the exception
+   surfaced is a matter of scheduling; for such a simulation only the outcome is compared. *)
+Definition loose (m : mode) (r : runrec) : bool :=
+  match m, r_err r with MDask, Some _ => true | _, _ => false end.
+
+Definition rec_eqb (m : mode) (a b : runrec) : bool :=
   Nat.eqb (r_ep a) (r_ep b) && String.eqb (r_dir a) (r_dir b) && String.eqb (r_at a) (r_at b)
-  && opt_err_eqb (r_err a) (r_err b) && files_same (r_files a) (r_files b)
+  && opt_err_eqb (r_err a) (r_err b) && (files_same (r_files a) (r_files b) || loose m a)
   && match r_err a with None => same_set entry_eqb (r_rep a) (r_rep b) | Some _ => true end.
 
-Definition world_eqb (a b : world) : bool :=
-  forallb (fun x => match wget (fst x) b with Some fs => files_same fs (snd x) | None => false end) a
+Definition world_eqb (skip : list string) (a b : world) : bool :=
+  forallb (fun x => mem (fst x) skip
+                    || match wget (fst x) b with Some fs => files_same fs (snd x) | None => false end) a
   && forallb (fun x => match wget (fst x) a with Some _ => true | None => false end) b.
 
 Definition hist_model_ok (T : tables) (excl : bool) (c : hist_case) : bool :=
   match run_hist (hc_mode c) T excl (hc_ts c) (hc_ops c) (init_state (hc_cfg c)) (hc_world c) 0 with
-  | (wf, recs) => list_eqb rec_eqb recs (hc_recs c) && world_eqb wf (hc_final c)
+  | (wf, recs) =>
+      list_eqb (rec_eqb (hc_mode c)) recs (hc_recs c)
+      && world_eqb (map r_at (filter (loose (hc_mode c)) recs)) wf (hc_final c)
   end.
 
 Definition hc_sims (c : hist_case) : list sim := sims (hc_ts c) (hc_ops c) (hc_cfg c) 0.
